@@ -674,3 +674,23 @@ func genFree(r *vh.Rng, thorough bool) *Case {
 	c.Free = f
 	return c
 }
+
+// addClientSwitches inserts SetTcpClient calls at arbitrary positions of a deterministic history
+// (clients 0..2; 0 is the one given at construction): before the first record, in the middle of a batch
+// under construction, between the records queued and the step that dequeues them, right before the stop.
+func addClientSwitches(r *vh.Rng, c *Case) *Case {
+	if c.Kind != "det" || !r.Chance(18) {
+		return c
+	}
+	n := 1 + r.Intn(3)
+	for i := 0; i < n; i++ {
+		at := r.Intn(len(c.Ops) + 1)
+		if r.Chance(20) {
+			at = 0
+		}
+		ops := append([]Op{}, c.Ops[:at]...)
+		ops = append(ops, Op{K: "client", N: r.Intn(3)})
+		c.Ops = append(ops, c.Ops[at:]...)
+	}
+	return c
+}
